@@ -141,8 +141,12 @@ def main():
               % (pid, tier, stats.evaluations, len(stats.nt), stats.examples, len(viol_lines), time.time() - t0))
         if viol_lines:
             rc = 1
-        elif errs:
+        elif errs and (len(errs) * 2 >= core.NPROC or (n > 0 and stats.examples < 0.5 * n)):
+            # the machinery itself is broken: most of the budget was not explored
             rc = 2
+        elif errs:
+            # a worker stopped early on an error of the harness (not of the property): what was explored held; the shortfall is in the evidence
+            print('INCONCLUSIVE: %d of %d workers stopped on a harness error; %d examples were completed' % (len(errs), core.NPROC, stats.examples), file=sys.stderr)
         return rc
     finally:
         shutil.rmtree(top, ignore_errors=True)
